@@ -7,7 +7,8 @@
 //
 //	wq-gen    write the equality database (many day directories, two interfaces) and print it
 //	wq-days   write a database with N day directories holding one tiny block each and print it
-//	wq-query  run queries (one JSON query per stdin line) on a database and print one event per query
+//	wq-query  run queries (one JSON query per stdin line) on a database and print one event per query;
+//	          SIGUSR1 makes it print the stacks of all goroutines and carry on
 package workqueue
 
 import (
@@ -15,7 +16,9 @@ import (
 	"flag"
 	"fmt"
 	"os"
+	"os/signal"
 	"runtime"
+	"syscall"
 	"time"
 
 	"verifharness/internal/cond"
@@ -142,6 +145,7 @@ func cmdQuery(args []string) {
 	lowmem := fs.Bool("lowmem", false, "low-memory mode")
 	reps := fs.Int("reps", 1, "run every query this many times")
 	fs.Parse(args)
+	dumpOnSignal()
 	o := hx.NewOut(os.Stdout)
 	n := 0
 	err := hx.Lines(os.Stdin, func(line []byte) error {
@@ -172,4 +176,18 @@ func cmdQuery(args []string) {
 	if err != nil {
 		hx.Die("wq-query: %v", err)
 	}
+}
+
+// dumpOnSignal makes the child write the stacks of all goroutines to stderr on SIGUSR1 and carry on, so
+// that the check can look at a query that takes long without ending it.
+func dumpOnSignal() {
+	ch := make(chan os.Signal, 4)
+	signal.Notify(ch, syscall.SIGUSR1)
+	go func() {
+		for range ch {
+			buf := make([]byte, 1<<22)
+			n := runtime.Stack(buf, true)
+			os.Stderr.Write(append(append([]byte("WQ-DUMP-BEGIN\n"), buf[:n]...), []byte("\nWQ-DUMP-END\n")...))
+		}
+	}()
 }
